@@ -431,7 +431,7 @@ Section Flags.
         intros _. cbn. rewrite Hcact. split; [intros _; rewrite (tasks_of_regs s s1 Hri), Hts; left; reflexivity|reflexivity]. }
       assert (Hc2 : forall tk', get t (set_task t tk2 s1) = Some (mkFut None (KTask tk')) -> tk_cact tk' = true).
       { intros tk' Hg'. destruct U2 as (A2 & _). rewrite A2 in Hg'. inversion Hg'; subst. exact Hcact. }
-      fold deps. fold tk2. destruct deps; cbn; (split; [exact HF2|]).
+      fold deps. fold tk2. destruct (futs (extract y')); cbn; (split; [exact HF2|]).
       + split; [eauto|]. split; [exists rest; exact Htk|exact Hc2].
       + exists t, old, rest. auto.
     - (* Enter *)
